@@ -650,7 +650,7 @@ def plant_sec(anno, genome, rng: random.Random, tx_id: str, near_start: bool = T
         return False
     have = {int(s.start) for s in tx_seq.selenocysteine}
     for _ in range(20):
-        k = rng.randint(3, min(14, ncod - 3)) if near_start else rng.randint(3, ncod - 3)
+        k = rng.randint(6, min(14, ncod - 3)) if near_start else rng.randint(3, ncod - 3)
         p = o0 + 3 * k
         if any(abs(p - h) < 3 for h in have):
             continue
@@ -663,6 +663,17 @@ def plant_sec(anno, genome, rng: random.Random, tx_id: str, near_start: bool = T
             continue            # codon split by an intron
         nts = list(str(genome[chrom].seq))
         nts[lo:hi + 1] = list('TGA' if strand == 1 else 'TCA')
+        if near_start and k >= 5 and rng.random() < 0.7:
+            # a lysine between the start codon and the Sec: the Sec is then not in the first
+            # cleavage fragment but within the miscleavage window of the start
+            p2 = o0 + 3 * (k - rng.randint(2, min(4, k - 2)))
+            try:
+                g2 = [anno.coordinate_transcript_to_genomic(p2 + j, tx_id) for j in range(3)]
+                l2, h2 = min(g2), max(g2)
+                if h2 - l2 == 2 and not (l2 <= hi and lo <= h2):
+                    nts[l2:h2 + 1] = list('AAG' if strand == 1 else 'CTT')
+            except Exception:   # noqa
+                pass
         genome[chrom].seq = Seq(''.join(nts))
         feat = GTFSeqFeature(location=FeatureLocation(lo, hi + 1, strand=strand), type='selenocysteine',
                              id=tx_id, attributes=dict(tx_model.transcript.attributes), chrom=chrom)
